@@ -256,6 +256,43 @@ func c17Loop(c *Ctx, exec, classify *ssa.Function) {
 			}
 		}
 	}
+	// the tests may be folded into a predicate helper: `if isFinal(err) { return err }` with isFinal(err) = err == nil ||
+	// !IsRetryableError(err). The helper's result value that implies "err != nil and classified transient" plays both roles.
+	var predIf *ssa.If
+	predSucc := 0
+	for _, blk := range exec.Blocks {
+		if len(blk.Instrs) == 0 {
+			continue
+		}
+		ifi, ok := blk.Instrs[len(blk.Instrs)-1].(*ssa.If)
+		if !ok {
+			continue
+		}
+		hc, ok := ifi.Cond.(*ssa.Call)
+		if !ok {
+			continue
+		}
+		sc := ir.StaticCallee(hc)
+		if sc == nil || !c.P.IsLib(sc) || sc == classify {
+			continue
+		}
+		for i, a := range hc.Call.Args {
+			if i < len(sc.Params) && valueDependsOn(a, oc, 0) {
+				for val, f := range errPredicateFacts(sc, sc.Params[i], classify) {
+					if f.nonNil && f.transient {
+						predIf = ifi
+						predSucc = 1
+						if val {
+							predSucc = 0
+						}
+					}
+				}
+			}
+		}
+	}
+	if nilIf == nil && predIf != nil {
+		nilIf, nilErrSucc = predIf, predSucc
+	}
 	if nilIf == nil {
 		c.R.Violate("R-retry-edge", "success test", c.Pos(oc.Pos()), "the operation's error is not tested against nil before the next attempt")
 	} else {
@@ -286,6 +323,9 @@ func c17Loop(c *Ctx, exec, classify *ssa.Function) {
 			}
 		}
 	}
+	if clsIf == nil && predIf != nil {
+		clsIf, retrySucc = predIf, predSucc
+	}
 	if clsIf == nil {
 		c.R.Violate("R-retry-edge", "transient classification", c.Pos(oc.Pos()), "the retry loop never consults IsRetryableError: every failure is retried")
 	} else {
@@ -312,12 +352,50 @@ func c17Waits(c *Ctx, exec *ssa.Function) {
 			}
 		})
 	}
-	nSel := 0
+	// the waits of the executor: its own selects, and those of helpers it hands its context to (wait(ctx, d),
+	// cancelled(ctx)); in a helper the context and the duration are parameters, mapped back to the call's arguments
+	type waitSite struct {
+		sel    *ssa.Select
+		ctx    ssa.Value             // the value that is the caller's context inside the site's function
+		mapArg func(ssa.Value) ssa.Value // parameter of the helper -> argument in Execute
+	}
+	var sites []waitSite
 	ir.EachInstr(exec, func(_ *ssa.BasicBlock, _ int, in ssa.Instruction) {
-		sel, ok := in.(*ssa.Select)
-		if !ok {
-			return
+		switch x := in.(type) {
+		case *ssa.Select:
+			sites = append(sites, waitSite{x, ctxParam, func(v ssa.Value) ssa.Value { return v }})
+		case *ssa.Call:
+			sc := ir.StaticCallee(x)
+			if sc == nil || !c.P.IsLib(sc) {
+				return
+			}
+			var hctx ssa.Value
+			for i, a := range x.Call.Args {
+				if a == ssa.Value(ctxParam) && i < len(sc.Params) {
+					hctx = sc.Params[i]
+				}
+			}
+			if hctx == nil {
+				return
+			}
+			call := x
+			ir.EachInstr(sc, func(_ *ssa.BasicBlock, _ int, in2 ssa.Instruction) {
+				if sel, ok := in2.(*ssa.Select); ok {
+					sites = append(sites, waitSite{sel, hctx, func(v ssa.Value) ssa.Value {
+						for i, p := range sc.Params {
+							if v == ssa.Value(p) && i < len(call.Call.Args) {
+								return call.Call.Args[i]
+							}
+						}
+						return v
+					}})
+				}
+			})
 		}
+	})
+	nSel := 0
+	for _, ws := range sites {
+		sel := ws.sel
 		nSel++
 		construct := sprintf("select #%d in Execute", nSel)
 		hasDone, timer := false, ssa.Value(nil)
@@ -325,11 +403,11 @@ func c17Waits(c *Ctx, exec *ssa.Function) {
 			if oc := originCall(st.Chan); oc != nil {
 				switch ir.CallName(oc) {
 				case "(context.Context).Done":
-					if oc.Call.Value == ctxParam {
+					if oc.Call.Value == ws.ctx {
 						hasDone = true
 					}
 				case "time.After":
-					timer = oc.Call.Args[0]
+					timer = ws.mapArg(oc.Call.Args[0])
 				}
 			}
 		}
@@ -379,12 +457,39 @@ func c17Waits(c *Ctx, exec *ssa.Function) {
 				c.R.Check(ok2, "R-cap", construct+": exponent", c.Pos(sel.Pos()), why2, "the k-th wait is not InitialBackoff x Factor^(k-1): "+why2)
 			}
 		}
-	})
+	}
 	// the ctx.Done arm returns ctx.Err()
 	retErr := false
+	returnsCtxErr := func(fn *ssa.Function, ctx ssa.Value) bool {
+		found := false
+		ir.EachInstr(fn, func(_ *ssa.BasicBlock, _ int, in ssa.Instruction) {
+			if r, ok := in.(*ssa.Return); ok && len(ir.Results(r)) == 1 {
+				if oc := originCall(ir.Results(r)[0]); oc != nil && ir.CallName(oc) == "(context.Context).Err" && oc.Call.Value == ctx {
+					found = true
+				}
+			}
+		})
+		return found
+	}
+	if returnsCtxErr(exec, ctxParam) {
+		retErr = true
+	}
+	// ... or Execute returns what a helper returned that itself returns its context's error
 	ir.EachInstr(exec, func(_ *ssa.BasicBlock, _ int, in ssa.Instruction) {
-		if r, ok := in.(*ssa.Return); ok && len(ir.Results(r)) == 1 {
-			if oc := originCall(ir.Results(r)[0]); oc != nil && ir.CallName(oc) == "(context.Context).Err" && oc.Call.Value == ctxParam {
+		r, ok := in.(*ssa.Return)
+		if !ok || len(ir.Results(r)) != 1 {
+			return
+		}
+		hc := originCall(ir.Results(r)[0])
+		if hc == nil {
+			return
+		}
+		sc := ir.StaticCallee(hc)
+		if sc == nil || !c.P.IsLib(sc) {
+			return
+		}
+		for i, a := range hc.Call.Args {
+			if a == ssa.Value(ctxParam) && i < len(sc.Params) && returnsCtxErr(sc, sc.Params[i]) {
 				retErr = true
 			}
 		}
@@ -1041,4 +1146,142 @@ func c17NoTransportReplay(c *Ctx) {
 		})
 	}
 	c.R.Hold("R-no-transport-replay", "no request is marked replayable for net/http", "", sprintf("%d header writes of the clients examined; none sets Idempotency-Key / X-Idempotency-Key", n))
+}
+
+type errFacts struct{ nonNil, transient bool }
+
+// errPredicateFacts summarises a bool-returning helper H(err): for each result value it can return, whether that value
+// implies "err != nil" and "classify(err) is true" on every path that can produce it. Paths are the helper's returns
+// with the edges of `err == nil` tests and of classify(err) calls that control them; a returned value is a constant,
+// classify(err) or !classify(err).
+func errPredicateFacts(H *ssa.Function, p *ssa.Parameter, classify *ssa.Function) map[bool]errFacts {
+	res := H.Signature.Results()
+	if res.Len() != 1 || ir.TypeStr(res.At(0).Type()) != "bool" {
+		return nil
+	}
+	type path struct {
+		canBe            map[bool]bool // result values this path can produce
+		nonNil, nilKnown bool
+		cls, clsKnown    bool
+		valueIsCls       int // 0: constant, 1: value == cls, -1: value == !cls
+	}
+	isCls := func(v ssa.Value) bool {
+		call, ok := v.(*ssa.Call)
+		return ok && ir.StaticCallee(call) == classify && len(call.Call.Args) == 1 && call.Call.Args[0] == ssa.Value(p)
+	}
+	var paths []path
+	ok := true
+	ir.EachInstr(H, func(blk *ssa.BasicBlock, _ int, in ssa.Instruction) {
+		r, isRet := in.(*ssa.Return)
+		if !isRet || blk == H.Recover {
+			return
+		}
+		pt := path{canBe: map[bool]bool{}}
+		for _, g := range flow.Guards(H, blk) {
+			if v, op, isNil := nilCompare(g.If.Cond); isNil && v == ssa.Value(p) {
+				pt.nilKnown = true
+				pt.nonNil = (op == token.NEQ) == g.Branch
+			}
+			if isCls(g.If.Cond) {
+				pt.clsKnown, pt.cls = true, g.Branch
+			}
+		}
+		v := ir.Results(r)[0]
+		switch x := v.(type) {
+		case *ssa.Const:
+			pt.canBe[x.Value != nil && x.Value.String() == "true"] = true
+		case *ssa.UnOp:
+			if x.Op == token.NOT && isCls(x.X) {
+				pt.valueIsCls = -1
+				pt.canBe[true], pt.canBe[false] = true, true
+			} else {
+				ok = false
+			}
+		case *ssa.Call:
+			if isCls(x) {
+				pt.valueIsCls = 1
+				pt.canBe[true], pt.canBe[false] = true, true
+			} else {
+				ok = false
+			}
+		case *ssa.Phi:
+			// `a || b` / `a && b` lowered to a phi of constants and a classify call
+			for i, e := range x.Edges {
+				sub := path{canBe: map[bool]bool{}, nonNil: pt.nonNil, nilKnown: pt.nilKnown}
+				for _, g := range flow.Guards(H, x.Block().Preds[i]) {
+					if vv, op, isNil := nilCompare(g.If.Cond); isNil && vv == ssa.Value(p) {
+						sub.nilKnown = true
+						sub.nonNil = (op == token.NEQ) == g.Branch
+					}
+				}
+				// the edge itself may be the nil test's own block
+				if last, isIf := x.Block().Preds[i].Instrs[len(x.Block().Preds[i].Instrs)-1].(*ssa.If); isIf {
+					if vv, op, isNil := nilCompare(last.Cond); isNil && vv == ssa.Value(p) {
+						branch := x.Block().Preds[i].Succs[0] == x.Block()
+						sub.nilKnown = true
+						sub.nonNil = (op == token.NEQ) == branch
+					}
+				}
+				switch y := e.(type) {
+				case *ssa.Const:
+					sub.canBe[y.Value != nil && y.Value.String() == "true"] = true
+				case *ssa.UnOp:
+					if y.Op == token.NOT && isCls(y.X) {
+						sub.valueIsCls = -1
+						sub.canBe[true], sub.canBe[false] = true, true
+					} else {
+						ok = false
+					}
+				case *ssa.Call:
+					if isCls(y) {
+						sub.valueIsCls = 1
+						sub.canBe[true], sub.canBe[false] = true, true
+					} else {
+						ok = false
+					}
+				default:
+					ok = false
+				}
+				paths = append(paths, sub)
+			}
+			return
+		default:
+			ok = false
+		}
+		paths = append(paths, pt)
+	})
+	if !ok || len(paths) == 0 {
+		return nil
+	}
+	out := map[bool]errFacts{}
+	for _, val := range []bool{true, false} {
+		f := errFacts{nonNil: true, transient: true}
+		produced := false
+		for _, pt := range paths {
+			if !pt.canBe[val] {
+				continue
+			}
+			produced = true
+			// classification on this path when it yields val
+			cls, clsKnown := pt.cls, pt.clsKnown
+			switch pt.valueIsCls {
+			case 1:
+				cls, clsKnown = val, true
+			case -1:
+				cls, clsKnown = !val, true
+			}
+			if !(clsKnown && cls) {
+				f.transient = false
+			}
+			// classify(err) == true implies err != nil (checked for the classifier by R-retry-edge's own anchor: it
+			// returns false first thing for a nil error)
+			if !((pt.nilKnown && pt.nonNil) || (clsKnown && cls)) {
+				f.nonNil = false
+			}
+		}
+		if produced {
+			out[val] = f
+		}
+	}
+	return out
 }
